@@ -6,6 +6,13 @@ ids = [p['id'] for p in props]
 
 # id -> (level, technique, text, note)
 CLAIMED = {
+ "C03": ("exploration", "twin monitor: same statement on the columnar path and with the verif hook's no_columnar switch, gated by the columnar probe",
+         "Every generated single-table aggregate statement is executed twice on the same build (columnar gate open / forced off) over tables sized around SIMD boundaries with all NULL densities; results must agree and the three explicit clauses of the statement are asserted on the columnar path.",
+         "Only statements on which the columnar probe fired count; the row path is the oracle (C07 cross-checks it against a model)."),
+ "C07": ("exploration", "executable aggregate/grouping model (naive, exact arithmetic) as oracle, on both execution paths",
+         "Expected results are computed from the inserted rows by a 100-line model of the SQL definitions and compared with the engine with the columnar gate open and closed.",
+         "Model written from the SQL definitions in the property statement; 1e-9 relative tolerance for non-integral results."),
+
  "C02": ("exploration", "twin-database monitor (same history with and without user indexes) with index_scan probe and order checker",
          "Twin databases receive the same DML history; one of them has 1-3 user indexes of every kind. Table contents, every query's multiset (sequence where ORDER BY is total) and the requested order are compared; only queries for which the index_scan probe fired count as non-trivial.",
          "The index-free twin is the oracle; literals and predicates come from the property's list."),
